@@ -110,10 +110,16 @@ let q_tok w c =
 
 let rec take k l = if k <= 0 then [] else match l with [] -> [] | h :: t -> h :: take (k - 1) t
 
-let show c mvtext w =
+(* S<t>:<b> is printed only when the flag changed value in this move, M<t> only when Monitor's flag went
+   from false to true: that is what the harness can see in the objects' memory *)
+let show c mvtext w0 w =
   let tr = w.trace in
   let fresh = List.rev (take (List.length tr - c.shown) tr) in
   c.shown <- List.length tr;
+  let fresh = List.filter (fun e -> match e with
+      | EvSigWrite (_, _) -> w0.sigf <> w.sigf
+      | EvMonSet _ -> w.monf && not w0.monf
+      | _ -> true) fresh in
   let evs = if fresh = [] then "-" else String.concat " " (List.map ev_str fresh) in
   let ths = String.concat " " (List.init c.n (fun i -> thread_tok w i)) in
   emit (Printf.sprintf "%s | %s | %s | sf=%d mf=%d occ=%s sem=%s %s %s %s %s %s now=%s" mvtext evs ths
@@ -121,8 +127,9 @@ let show c mvtext w =
           (mtx_tok w 0) (mtx_tok w 1) (mtx_tok w 2) (q_tok w 0) (q_tok w 1) (dec_of_z w.ps.now))
 
 let apply c mvtext mv =
-  let w = step (get_world c) mv in
-  c.w <- Some w; show c mvtext w
+  let w0 = get_world c in
+  let w = step w0 mv in
+  c.w <- Some w; show c mvtext w0 w
 
 let z_le a b = match Z.compare a b with Gt -> false | _ -> true
 
@@ -176,8 +183,8 @@ let model_main file =
         | ["drain"] -> drain c
         | ["dl"; s; ns; ms] ->
           let (a, b) = deadline (z_of_dec s) (z_of_dec ns) (z_of_dec ms) in
-          emit (Printf.sprintf "dl %s %s" (dec_of_z a) (dec_of_z b))
-        | _ -> emit ("?bad-op " ^ String.concat " " toks));
+          List.iter (fun k -> emit (Printf.sprintf "dl %s %s %s" k (dec_of_z a) (dec_of_z b))) ["sig"; "mon"; "sem"]
+        | _ -> emit ("?bad-op " ^ List.hd toks));
        c)
     (fun _ -> ())
 
@@ -185,22 +192,145 @@ let model_main file =
 let judge_main file =
   let names = ["sig_ok"; "mon_ok"; "sem_ok"; "mtx_ok"; "timed_ok"; "join_ok"] in
   run_cases file
-    (fun cfg -> let a = Array.of_list cfg in (a.(0) = "1", z_of_dec a.(1), ref []))
-    (fun (s0, v0, evs) _ toks ->
+    (fun cfg -> let a = Array.of_list cfg in (a.(0) = "1", z_of_dec a.(1), ref [], ref []))
+    (fun (s0, v0, evs, dlbad) _ toks ->
        (match toks with
         | "e" :: l -> List.iter (fun tok -> evs := parse_ev tok :: !evs) l
         | "dl" :: s :: ns :: ms :: a :: b :: [] ->
+          (* the abstime handed to the OS must be start + timeout, normalised (for timeouts >= 0) *)
           let (x, y) = spec_deadline (z_of_dec s) (z_of_dec ns) (z_of_dec ms) in
-          if Z.compare (z_of_dec ms) Z0 <> Lt && (dec_of_z x <> a || dec_of_z y <> b) then evs := EvTimedFalse (O, SigSet, Z0, Z0) :: !evs
+          if Z.compare (z_of_dec ms) Z0 <> Lt && (dec_of_z x <> a || dec_of_z y <> b)
+          then dlbad := Printf.sprintf "deadline(%s.%s+%sms)=%s.%s,expected=%s.%s" s ns ms a b (dec_of_z x) (dec_of_z y) :: !dlbad
         | _ -> ());
-       (s0, v0, evs))
-    (fun (s0, v0, evs) ->
+       (s0, v0, evs, dlbad))
+    (fun (s0, v0, evs, dlbad) ->
        let res = all_ok s0 v0 !evs in
        let bad = List.filter_map (fun (n, b) -> if b then None else Some n) (List.combine names res) in
+       let bad = bad @ (match List.rev !dlbad with [] -> [] | x :: _ -> [x]) in
        emit (if bad = [] then "ok" else "FAIL " ^ String.concat "," bad))
+
+(* ---- schedule generation (not part of the tie: only chooses which schedules are run) ----
+   gen: reads cases whose last op is  `walk <seed> <steps> <pspur%> <ptmo%>`  or  `enum <depth> <spurs> <tmos> <maxleaves>`
+   and prints an ops file with explicit moves (one case per walk, one per enumerated maximal schedule). *)
+let blocked_cond w i = match w.ps.st (nat_of_int i) with TCondBlocked (_, _, _) -> true | _ -> false
+let sem_waiting w i = let t = nat_of_int i in
+  (match w.ps.st t with TRun -> (match (w.tc t).pc with SemWaitP | SemWaitTP _ -> true | _ -> false) | _ -> false)
+let timed_of w i =
+  let t = nat_of_int i in
+  match w.ps.st t with
+  | TCondBlocked (_, _, Some d) -> Some d
+  | TRun -> (match (w.tc t).pc with SemWaitTP d when dl_valid d -> Some d | _ -> None)
+  | _ -> None
+
+let z_pred x = Z.add x (Zneg XH)
+
+let gen_main file =
+  let outcase = ref 0 in
+  let print_case cfg tlines moves =
+    Printf.printf "case %d %s\n" !outcase (String.concat " " cfg); incr outcase;
+    List.iter print_endline tlines;
+    List.iter print_endline moves;
+    print_endline "drain"; print_endline "end" in
+  let mk_state cfg tl =
+    let a = Array.of_list cfg in
+    let g i d = if Array.length a > i then a.(i) else d in
+    let c = { n = int_of_string (g 0 "2"); sig0 = (g 1 "0" = "1"); sem0 = z_of_dec (g 2 "0"); auto = (g 3 "0" = "1");
+              scripts = []; w = None; shown = 0 } in
+    List.iter (fun l -> match tokens l with
+        | "t" :: i :: ops -> c.scripts <- (int_of_string i, List.map parse_call ops) :: c.scripts
+        | _ -> ()) tl;
+    c in
+  let ids c = List.init c.n (fun i -> i) in
+  let walk cfg tl pre seed steps pspur ptmo =
+    let c = mk_state cfg tl in
+    let rs = Random.State.make [| seed |] in
+    let w = ref (get_world c) in
+    let out = ref [] in
+    let mv text m = out := text :: !out; w := step !w m in
+    List.iter (fun l -> match tokens l with
+        | ["m"; "clock"; v] -> mv l (Clock (z_of_dec v))
+        | ["m"; "run"; i] -> mv l (Run (nat_of_int (int_of_string i)))
+        | _ -> ()) pre;
+    let pick l = List.nth l (Random.State.int rs (List.length l)) in
+    (try
+      for _ = 1 to steps do
+        let en = List.filter (fun i -> enabled !w (nat_of_int i)) (ids c) in
+        let bl = List.filter (fun i -> blocked_cond !w i || sem_waiting !w i) (ids c) in
+        let tm = List.filter (fun i -> timed_of !w i <> None) (ids c) in
+        let r = Random.State.int rs 100 in
+        let do_tmo () =
+          let i = pick tm in
+          let d = (match timed_of !w i with Some d -> d | None -> assert false) in
+          let tot = dl_total d in
+          (match Random.State.int rs 4 with
+           | 0 -> (* one nanosecond early: the timeout move must be a no-op *)
+             let e = z_pred tot in
+             mv ("m clock " ^ dec_of_z e) (Clock e); mv (Printf.sprintf "m tmo %d" i) (Timeout (nat_of_int i))
+           | _ -> ());
+          mv ("m clock " ^ dec_of_z tot) (Clock tot); mv (Printf.sprintf "m tmo %d" i) (Timeout (nat_of_int i)) in
+        if r < pspur && bl <> [] then (let i = pick bl in mv (Printf.sprintf "m spur %d" i) (Spurious (nat_of_int i)))
+        else if r < pspur + ptmo && tm <> [] then do_tmo ()
+        else if r < pspur + ptmo + 4 then (let q = Random.State.int rs 2 in mv (Printf.sprintf "m rot %d" q) (Rotate (nat_of_int q)))
+        else if r < pspur + ptmo + 7 then (let i = pick (ids c) in mv (Printf.sprintf "m run %d" i) (Run (nat_of_int i)))
+        else if r < pspur + ptmo + 9 then (let i = pick (ids c) in mv (Printf.sprintf "m tmo %d" i) (Timeout (nat_of_int i)))
+        else if en <> [] then (let i = pick en in mv (Printf.sprintf "m run %d" i) (Run (nat_of_int i)))
+        else if tm <> [] then do_tmo ()
+        else if bl <> [] && Random.State.int rs 3 = 0 then (let i = pick bl in mv (Printf.sprintf "m spur %d" i) (Spurious (nat_of_int i)))
+        else raise Exit
+      done
+    with Exit -> ());
+    print_case cfg tl (List.rev !out) in
+  let enum cfg tl pre depth spurs tmos maxleaves =
+    let c = mk_state cfg tl in
+    let leaves = ref 0 in
+    let w0 = ref (get_world c) in
+    let pre_moves = ref [] in
+    List.iter (fun l -> match tokens l with
+        | ["m"; "clock"; v] -> pre_moves := l :: !pre_moves; w0 := step !w0 (Clock (z_of_dec v))
+        | _ -> ()) pre;
+    let rec go w acc d sp tm =
+      if !leaves < maxleaves then begin
+        let en = List.filter (fun i -> enabled w (nat_of_int i)) (ids c) in
+        let choices = ref [] in
+        if d > 0 then begin
+          List.iter (fun i -> choices := `R i :: !choices) en;
+          if sp > 0 then List.iter (fun i -> if blocked_cond w i || sem_waiting w i then choices := `S i :: !choices) (ids c);
+          if tm > 0 then List.iter (fun i -> if timed_of w i <> None then choices := `T i :: !choices) (ids c)
+        end;
+        if !choices = [] then (incr leaves; print_case cfg tl (List.rev acc))
+        else List.iter (fun ch -> match ch with
+            | `R i -> go (step w (Run (nat_of_int i))) (Printf.sprintf "m run %d" i :: acc) (d - 1) sp tm
+            | `S i -> go (step w (Spurious (nat_of_int i))) (Printf.sprintf "m spur %d" i :: acc) (d - 1) (sp - 1) tm
+            | `T i ->
+              let dd = (match timed_of w i with Some x -> x | None -> assert false) in
+              let tot = dl_total dd in
+              let w1 = step (step w (Clock tot)) (Timeout (nat_of_int i)) in
+              go w1 (Printf.sprintf "m tmo %d" i :: ("m clock " ^ dec_of_z tot) :: acc) (d - 1) sp (tm - 1))
+            (List.rev !choices)
+      end in
+    go !w0 !pre_moves depth spurs tmos in
+  (* read the input file by hand: case / lines / end *)
+  let ic = open_in file in
+  let cfg = ref [] and tl = ref [] and pre = ref [] in
+  (try
+    while true do
+      let line = input_line ic in
+      match tokens line with
+      | "case" :: _ :: c -> cfg := c; tl := []; pre := []
+      | "t" :: _ -> tl := line :: !tl
+      | "m" :: _ -> pre := line :: !pre
+      | ["walk"; seed; steps; ps; pt] ->
+        walk !cfg (List.rev !tl) (List.rev !pre) (int_of_string seed) (int_of_string steps) (int_of_string ps) (int_of_string pt)
+      | ["enum"; d; sp; tm; mx] ->
+        enum !cfg (List.rev !tl) (List.rev !pre) (int_of_string d) (int_of_string sp) (int_of_string tm) (int_of_string mx)
+      | _ -> ()
+    done
+  with End_of_file -> ());
+  close_in ic
 
 let () =
   let mode = Sys.argv.(1) and file = Sys.argv.(2) in
   if mode = "model" then model_main file
   else if mode = "judge" then judge_main file
+  else if mode = "gen" then gen_main file
   else failwith "mode"
